@@ -7,6 +7,7 @@ import (
 	"path/filepath"
 	"sort"
 	"sync"
+	"sync/atomic"
 	"time"
 
 	tally "github.com/uber-go/tally/v4"
@@ -22,7 +23,7 @@ func init() {
 		cm := commonFlags(fs)
 		fs.Parse(args)
 		rng := rand.New(rand.NewSource(cm.seed))
-		rounds, per := 12, 1500
+		rounds, per := 30, 600
 		if cm.tier == "thorough" {
 			rounds, per = 60, 6000
 		}
@@ -50,6 +51,7 @@ func init() {
 				recs := map[string][]int64{}
 				var rmu sync.Mutex
 				var wg sync.WaitGroup
+				var arrived atomic.Int32
 				start := make(chan struct{})
 				stop := make(chan struct{})
 				for g := 0; g < G; g++ {
@@ -57,6 +59,10 @@ func init() {
 					wg.Add(1)
 					go func() {
 						defer wg.Done()
+						// first use of the shared timers by all goroutines at the same moment
+						arrived.Add(1)
+						for int(arrived.Load()) < G {
+						}
 						shared := root.Timer("shared")
 						subShared := sub.Timer("shared")
 						own := root.Timer(fmt.Sprintf("own%d", g))
